@@ -67,6 +67,10 @@ def _plan(draw, max_len, narrow=True):
     if draw(st.booleans()):
         pool = pool[:4]
     ngroups = 2
+    if kind in ("f", "i") and h in ("std", "var", "mean", "sum", "median", "quantile") and draw(st.integers(0, 4)) == 0:
+        # a large common offset with a small spread: where one-pass formulas cancel catastrophically
+        pool = [1e9 + 1, 1e9 + 2, 1e9 + 3, 1e9 + 3] if kind == "f" else [10**8 + 1, 10**8 + 2, 10**8 + 4]
+        ngroups = draw(st.integers(0, 1))
     if h == "mode" and draw(st.integers(0, 3)):
         # tie patterns such as [1, 2, 2, 1] need few distinct values in few, larger groups
         nn = [v for v in pool if v == v and v is not None and v != ""]
@@ -86,7 +90,10 @@ def _plan(draw, max_len, narrow=True):
         args["q"] = draw(st.sampled_from([0, 0.1, 0.25, 0.5, 0.9, 1]))
     if h in ("std", "var") and draw(st.integers(0, 3)) == 0:
         args["ddof"] = draw(st.sampled_from([0, 1]))
-    return {"kind": kind, "helper": h, "vals": vals, "groups": groups, "args": args}
+    # further helpers on the same column as later summaries of the same aggregate call
+    extra = draw(st.lists(st.sampled_from(["first", "last", "nth1", "count", "min", "max", "count_unique_dropna"]),
+                          max_size=2, unique=True))
+    return {"kind": kind, "helper": h, "vals": vals, "groups": groups, "args": args, "extra": extra}
 
 
 def strategy(tier):
@@ -116,6 +123,18 @@ def _helper(plan):
     if plan["helper"] == "quantile":
         return f("x", a.pop("q"), **a)
     return f("x", **a)
+
+
+_EXTRA = {"first": lambda: di.first("x"), "last": lambda: di.last("x"), "nth1": lambda: di.nth("x", 1),
+          "count": lambda: di.count("x"), "min": lambda: di.min("x"), "max": lambda: di.max("x"),
+          "count_unique_dropna": lambda: di.count_unique("x", drop_na=True)}
+
+
+def _summaries(plan):
+    out = {"y": _helper(plan)}
+    for j, e in enumerate(plan.get("extra", [])):
+        out[f"z{j}"] = _EXTRA[e]()
+    return out
 
 
 def _frame(plan):
@@ -152,18 +171,26 @@ def check(plan, ctx):
     before = build.snap_frame(data)
     di.USE_NUMBA = False
     try:
-        e = data.group_by("g").aggregate(y=_helper(plan))["y"]
+        eall = data.group_by("g").aggregate(**_summaries(plan))
     except Exception as ex:
         ctx.reject(f"python path raises: {plan['helper']} on {plan['kind']}: {type(ex).__name__}")
         return
     di.USE_NUMBA = True
     data._group_colnames = ()
-    r = ctx.call(f"aggregate(y={plan['helper']}('x')) with USE_NUMBA=True",
-                 lambda: data.group_by("g").aggregate(y=_helper(plan))["y"])
+    rall = ctx.call(f"aggregate(y={plan['helper']}('x'), ...) with USE_NUMBA=True",
+                    lambda: data.group_by("g").aggregate(**_summaries(plan)))
     di.USE_NUMBA = False
     data._group_colnames = ()
     if build.snap_frame(data) != before:
         raise Violation("aggregate changed its receiver")
+    for j, name in enumerate(plan.get("extra", [])):
+        a, b = build.cells(eall[f"z{j}"]), build.cells(rall[f"z{j}"])
+        if len(a) != len(b) or not all(build.same_cell(x, y, tol=TOL) for x, y in zip(a, b)) \
+                or (plan["kind"] not in ("f32", "i32") and str(eall[f"z{j}"].dtype) != str(rall[f"z{j}"].dtype)):
+            raise Violation("a later summary of the same aggregate call differs between Numba on and off",
+                            first_helper=plan["helper"], later=name, python=a, numba=b,
+                            pdtype=str(eall[f"z{j}"].dtype), ndtype=str(rall[f"z{j}"].dtype))
+    e, r = eall["y"], rall["y"]
     ec, rc = build.cells(e), build.cells(r)
     if len(ec) != len(rc):
         raise Violation("number of groups differs between Numba on and off", python=ec, numba=rc)
